@@ -4,6 +4,7 @@ import (
 	"context"
 	"crypto/tls"
 	"fmt"
+	"io"
 	"net"
 	"sync"
 	"time"
@@ -215,6 +216,7 @@ func (b *UDPListener) Start(ctx context.Context, wg *sync.WaitGroup) (chan netce
 					li:       b,
 					raddr:    addr,
 					recvChan: make(chan []byte),
+					closed:   make(chan struct{}),
 				}
 				b.sessionRegistry[addrStr] = sess
 				b.sessRegLock.Unlock()
@@ -231,6 +233,10 @@ func (b *UDPListener) Start(ctx context.Context, wg *sync.WaitGroup) (chan netce
 				_ = b.conn.Close()
 
 				return
+			case <-sess.closed:
+				// The session ended (for instance its protocol loop refused the peer) while this
+				// datagram was waiting for it. Nobody will receive from recvChan any more, so the
+				// datagram is dropped rather than blocking the listener, which serves every peer.
 			case sess.recvChan <- data:
 			}
 		}
@@ -247,6 +253,8 @@ type UDPListenerSession struct {
 	li       *UDPListener
 	raddr    *net.UDPAddr
 	recvChan chan []byte
+	closed   chan struct{}
+	closeOne sync.Once
 }
 
 // Send sends data over the session.
@@ -266,6 +274,8 @@ func (ns *UDPListenerSession) Recv(timeout time.Duration) ([]byte, error) {
 	select {
 	case data := <-ns.recvChan:
 		return data, nil
+	case <-ns.closed:
+		return nil, io.EOF
 	case <-time.After(timeout):
 		return nil, netceptor.ErrTimeout
 	}
@@ -276,6 +286,9 @@ func (ns *UDPListenerSession) Close() error {
 	ns.li.sessRegLock.Lock()
 	defer ns.li.sessRegLock.Unlock()
 	delete(ns.li.sessionRegistry, ns.raddr.String())
+	if ns.closed != nil {
+		ns.closeOne.Do(func() { close(ns.closed) })
+	}
 
 	return nil
 }
